@@ -174,6 +174,15 @@ CHECKS = {
              note=BASE_NOTE + "What a real disk keeps is assumed (the statement's own power-loss model), not observed; no post-power-loss directory is reconstructed and reopened. Completeness of the "
              "trace depends on the instrumented sites. The write path is not modelled here: the tie is a property of recorded traces, decided by the model's executable definitions.",
              tech="Lean 4 proof (durability of disciplined event traces at every power-loss point; sound executable checker) + recorded-trace checking on the real engine", ref="§6 C10"),
+ "C05": dict(text="Partial: the statement relative to atomicity. Theorems: C05_every_interleaving_is_fifo (EVERY interleaving - any number of threads, any lengths, any topics - of operation lists whose "
+             "calls take effect atomically is a history of the FIFO specification: every appended entry delivered by exactly one consuming read, in order, batches contiguous), "
+             "C05_per_thread_order_preserved (an interleaving keeps each thread's own order). Which calls are atomic is read off the code (append, batch append, cursor batch read hold their locks "
+             "from start to commit; read_next does not: open finding tailReadersShareSnapshot, reproduced; two rotation windows read in the source). Correspondence: real-thread stress harness "
+             "restricted to the atomic calls - concurrent producers with single and batch appends on a shared topic, first appends of several threads to fresh topics released together, "
+             "concurrent consuming batch readers over sealed + tail data, StrictlyAtOnce and AtLeastOnce, both backends; oracle: exactly-once, per-producer order, batch contiguity.",
+             note=BASE_NOTE + "No scheduling hooks (H4): real scheduling and memory ordering are exercised, not enumerated; a race that needs a rare schedule can be missed by a run. Readers overlapping a "
+             "rotating writer and concurrent read_next are outside the stress scenarios (the known windows); the theorem says nothing about executions that enter them.",
+             tech="Lean 4 proof (every interleaving of atomic operations refines the FIFO spec; induction over the interleaving) + real-thread stress correspondence + oracle", ref="§6 C05"),
 }
 NOT_APPLICABLE = {
  "C19": "statement about the vendored openraft core + QUIC transport + tokio runtime, none of which can be built or run offline here (tokio, quinn, rustls, futures absent from the registry); a free-standing Raft proof would be tied to nothing (DESIGN.md §6 C19)",
